@@ -14,6 +14,7 @@ Enum(vals, fast) == [C0("Enum", fast) EXCEPT !.vals = vals]
 Inst(k, an) == [C0("Instance", TRUE) EXCEPT !.k = k, !.an = an]
 TypeT(k, an) == [C0("Type", TRUE) EXCEPT !.k = k, !.an = an]
 Call(an) == [C0("Callable", TRUE) EXCEPT !.an = an]
+ThisT(an) == [C0("This", TRUE) EXCEPT !.an = an]
 Tup(ms, fast) == [C0("Tuple", fast) EXCEPT !.ms = ms]
 Str3(mn, mx, re) == [C0("String", FALSE) EXCEPT !.mn = mn, !.mx = mx, !.re = re]
 Mapped(t, vals, fast) == [C0(t, fast) EXCEPT !.vals = vals]
@@ -42,7 +43,7 @@ GoodRange(c) == (c.lo # None9 \/ c.hi # None9) /\ (c.lo = None9 \/ c.hi = None9 
 SimpleCfgs == {S(t) : t \in Simple} \cup {B(t) : t \in {"Int", "Float", "Str", "Bool", "CInt", "CFloat", "Complex"}}
 TupleMs == {<<S("Int"), S("Str")>>, <<S("Float"), S("Str")>>, <<S("CInt"), S("Str")>>, <<S("Int"), S("Str"), S("Int")>>,
             <<>>, <<RangeF(0, 10, FALSE, TRUE), S("Str")>>, <<S("Float"), S("CFloat")>>, <<S("Float"), S("Float")>>,
-            <<B("Int"), S("Str")>>}
+            <<B("Int"), S("Str")>>, <<ThisT(FALSE), S("Str")>>, <<S("Complex"), S("Str")>>}
 UnionMs == {<<S("Int"), S("Str")>>, <<S("Str"), S("Int")>>, <<S("Float"), S("Int")>>, <<S("Int"), S("Float")>>,
             <<S("NoneT"), S("Int")>>, <<S("CInt"), S("Str")>>, <<S("Str"), S("CInt")>>,
             <<Tup(<<S("Int"), S("Str")>>, TRUE), S("Str")>>, <<RangeF(0, 10, FALSE, FALSE), S("Str")>>,
@@ -52,7 +53,10 @@ UnionMs == {<<S("Int"), S("Str")>>, <<S("Str"), S("Int")>>, <<S("Float"), S("Int
             \* Python-only alternatives (no fast validator) and nested compounds
             <<B("Str"), S("Int")>>, <<S("Int"), B("Str")>>, <<Uni(<<S("Int"), B("Str")>>, TRUE), S("Float")>>,
             <<Uni(<<S("Int"), S("Str")>>, TRUE), S("Float")>>, <<S("Float"), Uni(<<B("Int"), S("Str")>>, TRUE)>>,
-            <<Tup(<<S("Float"), S("Float")>>, TRUE), S("NoneT")>>}
+            <<Tup(<<S("Float"), S("Float")>>, TRUE), S("NoneT")>>,
+            \* This and Complex as alternatives (their own cases inside validate_trait_complex)
+            <<ThisT(FALSE), S("Int")>>, <<ThisT(TRUE), S("Int")>>, <<S("Str"), ThisT(FALSE)>>,
+            <<S("Complex"), S("Int")>>, <<S("Complex"), S("Str")>>, <<S("Int"), S("Complex")>>, <<S("Complex"), Inst("A", FALSE)>>}
 LegacyCfgs ==
         {TCo(k) : k \in {"float", "complex", "int", "str"}} \cup {TCa(k) : k \in {"float", "int", "str", "bool", "complex"}}
         \cup {TIn(k, an) : k \in {"A", "B"}, an \in BOOLEAN} \cup {TInC("A"), TInC("B")} \cup {TFn, S("CComplex"), B("CComplex")}
@@ -64,7 +68,7 @@ Cfgs == SimpleCfgs
         \cup {c \in RangeFs \cup RangeIs : GoodRange(c)}
         \cup {Enum(vs, f) : vs \in {{"i1", "i2"}, {"s_a", "s_abc"}, {"i1", "s_a", "none"}, {"f1", "f2h"}, {"bT"}}, f \in BOOLEAN}
         \cup {Inst(k, an) : k \in {"A", "B"}, an \in BOOLEAN} \cup {TypeT("A", an) : an \in BOOLEAN}
-        \cup {Call(an) : an \in BOOLEAN}
+        \cup {Call(an) : an \in BOOLEAN} \cup {ThisT(an) : an \in BOOLEAN}
         \cup {Tup(ms, f) : ms \in TupleMs, f \in BOOLEAN}
         \cup {Uni(ms, f) : ms \in UnionMs, f \in BOOLEAN}
         \cup {Str3(mn, mx, re) : mn \in {0, 2}, mx \in {None9, 3}, re \in BOOLEAN}
